@@ -6,6 +6,7 @@ get_node, iterate_names).  Only drives and projects; Trace_VersionedZone judges.
 
 Never opens two write transactions at once (a second zone.writer() would block forever
 in a single thread; writer admission is property C12)."""
+import dns.btree
 import dns.btreezone
 import dns.name
 import dns.node
@@ -246,20 +247,25 @@ def mutate_through_reader(zone, txn, relativize):
     rd9 = a_rdata(9)
     rds9 = dns.rdataset.from_rdata(77, rd9)
     ver = txn.version
+    # only calls that WOULD change something on a mutable object (a call that could not
+    # change anything - clear() of an empty map, deleting an absent key - proves nothing)
     attempts = [
         ("txn.add", lambda: txn.add(nz, TTL, rd9)),
         ("txn.replace", lambda: txn.replace(apex, TTL, soa_rdata(99))),
-        ("txn.delete", lambda: txn.delete(apex)),
-        ("txn.update_serial", lambda: txn.update_serial(5)),
         ("version.nodes.__setitem__", lambda: ver.nodes.__setitem__(nz, zone.node_factory())),
-        ("version.nodes.__delitem__", lambda: ver.nodes.__delitem__(apex)),
-        ("version.nodes.clear", lambda: ver.nodes.clear()),
-        ("version.nodes.pop", lambda: ver.nodes.pop(apex)),
         ("version.put_rdataset", lambda: ver.put_rdataset(nz, rds9)),
-        ("version.delete_node", lambda: ver.delete_node(apex)),
         ("setattr version.nodes", lambda: setattr(ver, "nodes", {})),
         ("setattr version.id", lambda: setattr(ver, "id", 99)),
     ]
+    if txn.name_exists(apex):
+        attempts += [
+            ("txn.delete", lambda: txn.delete(apex)),
+            ("txn.update_serial", lambda: txn.update_serial(5)),
+            ("version.nodes.__delitem__", lambda: ver.nodes.__delitem__(apex)),
+            ("version.nodes.clear", lambda: ver.nodes.clear()),
+            ("version.nodes.pop", lambda: ver.nodes.pop(apex)),
+            ("version.delete_node", lambda: ver.delete_node(apex)),
+        ]
     node = txn.get_node(apex)
     if node is not None:
         attempts += [
@@ -284,7 +290,7 @@ def mutate_through_reader(zone, txn, relativize):
             break
     if hasattr(ver, "delegations"):
         attempts += [("version.delegations.add", lambda: ver.delegations.add(nz)),
-                     ("version.delegations.clear", lambda: ver.delegations.clear())]
+                     ("version.delegations.insert_element", lambda: ver.delegations.insert_element(dns.btree.Member(nz)))]
     what, raised, excs = [], [], []
     for label, fn in attempts:
         res, exc, _ = call(fn)
@@ -375,6 +381,9 @@ def replay(script, zclass, relativize, tid):
             steps[i:i] = extra
             continue
         rec = dict(e)
+        rec.pop("maybe", None)
+        if rec.pop("if_open", False) and e["rid"] not in handles:
+            continue  # the open this call refers to was refused (by id / serial): nothing to do
         if op == "open":
             how = e["how"]
             if how == "latest":
@@ -388,6 +397,13 @@ def replay(script, zclass, relativize, tid):
             if txn is not None:
                 txn.__enter__()
                 handles[e["rid"]] = txn
+        elif op in ("close", "mutate") and e["rid"] not in handles:
+            # the implementation refused an open the script relied on: nothing to call
+            res, exc = "err", "NoSuchHandle"
+            rec["op"] = "no-handle"
+        elif op in ("stage", "end") and wtxn is None:
+            res, exc = "err", "NoWriter"
+            rec["op"] = "no-writer"
         elif op == "close":
             txn = handles.pop(e["rid"])
             res, exc, _ = end_reader(txn, e["how"])
@@ -433,13 +449,106 @@ def replay(script, zclass, relativize, tid):
     return trace
 
 
+# ----------------------------------------------------------------------------- seeded random histories
+def random_script(seed, steps, fresh):
+    """A seeded random walk of the environment, weighted towards histories that keep several
+    versions and readers alive (TLC's uniform simulation rarely commits).  Choices that
+    depend on the state (which handle to close, ids near the newest) are resolved with a
+    private bookkeeping of handles / writer / number of commits, which only decides what
+    is ASKED, never what is expected."""
+    import random
+    rnd = random.Random(seed)
+    script = []
+    if fresh:
+        script.append({"op": "init", "kind": "fresh", "content": {"serial": 0, "items": []}})
+        newest = 1
+    else:
+        script.append({"op": "init", "kind": "loaded", "content": rand_content(rnd)})
+        newest = 2
+    open_rids = {}   # rid -> True (asked to open; may have been refused - then close is skipped by the model too)
+    writer = None    # None | "clean" | "dirty"
+    for _ in range(steps):
+        choices = []
+        free = [r for r in (1, 2, 3, 4) if r not in open_rids]
+        if writer is None:
+            choices += [("begin", 4)]
+        else:
+            choices += [("stage", 5), ("commit", 4 if writer == "dirty" else 1), ("rollback", 1)]
+        if free:
+            choices += [("open", 2), ("openid", 4), ("openserial", 1), ("openboth", 0.2)]
+        if open_rids:
+            choices += [("close", 3)]
+            if not fresh:
+                choices += [("mutate", 0.5)]
+        choices += [("setmax", 1.2), ("setmax_none", 0.5), ("setpolicy", 1)]
+        if not fresh:
+            choices += [("zmutate", 0.3)]
+        op = rnd.choices([c[0] for c in choices], [c[1] for c in choices])[0]
+        if op == "begin":
+            repl = rnd.random() < (0.5 if (fresh and newest == 1) else 0.2)
+            script.append({"op": "begin", "repl": repl})
+            writer = "clean"
+        elif op == "stage":
+            script.append({"op": "stage", "content": rand_content(rnd)})
+            writer = "dirty"
+        elif op == "commit":
+            script.append({"op": "end", "how": rnd.choice(["commit", "exit"])})
+            if writer == "dirty":
+                newest += 1
+            writer = None
+        elif op == "rollback":
+            script.append({"op": "end", "how": rnd.choice(["rollback", "raise"])})
+            writer = None
+        elif op == "open":
+            script.append({"op": "open", "how": "latest", "rid": free[0], "arg": 0})
+            open_rids[free[0]] = True
+        elif op == "openid":
+            n = max(1, newest + rnd.choice([-4, -3, -2, -2, -1, -1, 0, 0, 1]))
+            script.append({"op": "open", "how": "id", "rid": free[0], "arg": n, "maybe": True})
+            open_rids[free[0]] = "maybe"
+        elif op == "openserial":
+            script.append({"op": "open", "how": "serial", "rid": free[0], "arg": rnd.randint(1, 5), "maybe": True})
+            open_rids[free[0]] = "maybe"
+        elif op == "openboth":
+            script.append({"op": "open", "how": "both", "rid": free[0], "arg": 1})
+        elif op == "close":
+            rid = rnd.choice(sorted(open_rids))
+            script.append({"op": "close", "rid": rid, "how": rnd.choice(["commit", "rollback", "exit"]),
+                           "if_open": open_rids[rid] == "maybe"})
+            del open_rids[rid]
+        elif op == "mutate":
+            rid = rnd.choice(sorted(open_rids))
+            script.append({"op": "mutate", "rid": rid, "if_open": open_rids[rid] == "maybe"})
+        elif op == "setmax":
+            script.append({"op": "setmax", "n": rnd.choice([0, 1, 2, 2, 3, 3, 4])})
+        elif op == "setmax_none":
+            script.append({"op": "setmax_none"})
+        elif op == "setpolicy":
+            script.append({"op": "setpolicy", "p": rnd.choice(["oddid", "oldserial", "none", "default"])})
+        elif op == "zmutate":
+            script.append({"op": "zmutate"})
+    return script
+
+
+def rand_content(rnd):
+    items = [it for it in (["a", 1], ["a", 2], ["b", 1]) if rnd.random() < 0.5]
+    return {"serial": rnd.randint(1, 4), "items": items}
+
+
 def run_job(job):
     if job[0] == "probe":
         from drivers import c11_probe
         return c11_probe.run_job(job)
-    script, zclass, relativize, tid = job
+    if job[0] == "random":
+        _, seed, steps, fresh, zclass, relativize, tid = job
+        script = random_script(seed, steps, fresh)
+    else:
+        script, zclass, relativize, tid = job
     try:
-        return replay(script, zclass, relativize, tid)
+        tr = replay(script, zclass, relativize, tid)
+        if job[0] == "random":
+            tr["random"] = [seed, steps, fresh]
+        return tr
     except Exception as e:  # a driver failure is reported as an unmatched trace
         return {"tid": tid, "zclass": zclass, "rel": relativize,
                 "ev": [{"op": "driver-error", "exc": repr(e)[:300]}]}
